@@ -2,7 +2,7 @@
 {exec(cmd), undo, redo} starting from the state a kernel history builds.
 
 case = kernel case (harness/kimpl.py) + 'word': [sop, ...]
-sop  := ['exec', cmd] | ['undo'] | ['redo']
+sop  := ['exec', cmd] | ['exec*', [cmd, ...]] (one stack.execute(c1, c2, ...) call) | ['undo'] | ['redo']
 cmd  := ['Set', x, fi, v] | ['Add', x, fi, v, index|None] | ['Remove', x, fi, v|None, index|None]
       | ['Move', x, fi, v|None, from|None, to] | ['Delete', x] | ['Compound', [cmd, ...]]
 Observation: kimpl.World.dump / take_log (public API only)."""
@@ -45,6 +45,9 @@ class CmdWorld:
         try:
             if sop[0] == 'exec':
                 self.stack.execute(self.build(sop[1]))
+            elif sop[0] == 'exec*':
+                # ONE call stack.execute(c1, c2, ...)
+                self.stack.execute(*[self.build(c) for c in sop[1]])
             elif sop[0] == 'undo':
                 self.stack.undo()
             elif sop[0] == 'redo':
